@@ -40,9 +40,11 @@ INITIAL = {1: 10, 2: 20}
 MODES = {            # name: (db_session options, model cfg [immediate, checks])
     'optimistic':   ({}, [False, True]),
     'immediate':    ({'immediate': True}, [True, True]),
-    'serializable': ({'serializable': True}, [True, True]),
+    'serializable': ({'serializable': True}, [True, False]),      # db_session.optimistic = optimistic and not serializable
     'pessimistic':  ({'optimistic': False}, [True, False]),
 }
+COMMIT_VARIANTS = ['commit', 'db_commit', 'flush_commit']      # commit() / db.commit() / flush(); commit() INSIDE the db_session
+KNOWN_KEY_NOCHECK = 'nocheck-session-stale-write-after-commit'
 LOCK_VARIANTS = ['get', 'get_nowait', 'get_skip', 'query', 'query_nowait', 'query_skip', 'lambda_get']
 
 
@@ -58,9 +60,10 @@ def define(tr, path):
     class T(db.Entity):
         _table_ = 't'
         x = Required(int)
+    from pony.orm import commit
     db.bind('sqlite', path, create_db=True, timeout=SQLITE_TIMEOUT, **tr.bind_kwargs())
     E = Env()
-    E.db = db; E.T = T; E.db_session = db_session; E.select = select; E.flush = flush
+    E.db = db; E.T = T; E.db_session = db_session; E.select = select; E.flush = flush; E.commit = commit
     return E
 
 
@@ -156,6 +159,11 @@ def do_action(E, act):
         obj.x = v
         E.flush()
         return v
+    if k == 'commit_mid':
+        if act[1] == 'commit': E.commit()
+        elif act[1] == 'db_commit': E.db.commit()
+        else: E.flush(); E.commit()
+        return None
     raise ValueError(act)
 
 
@@ -299,25 +307,27 @@ def oracle(case, obs):
             problems.append(('harness', 'step limit reached', p))
         return problems
     n = len(case['threads'])
-    stable = [dict() for _ in range(n)]       # per thread: object -> value read under the lock
-    seen = [dict() for _ in range(n)]         # per thread: object -> first value read
-    basis = [dict() for _ in range(n)]        # per thread: object -> value seen before its first UPDATE
-    wrote = [dict() for _ in range(n)]        # per thread: object -> last value written
+    stable = [dict() for _ in range(n)]       # per thread: object -> value read under the lock IN THE CURRENT TRANSACTION
+    seen = [dict() for _ in range(n)]         # per thread: object -> what the session knows of the row (identity map)
+    basis = [dict() for _ in range(n)]        # per thread: object -> value known before its first UPDATE in this transaction
+    wrote = [dict() for _ in range(n)]        # per thread: object -> last value written in this transaction
+    ninc = [dict() for _ in range(n)]         # per thread: object -> increments in this transaction
+    renewed = [False] * n                     # the session has committed in its middle (it is immediate from then on)
     ended = [None] * n
-    committed = [False] * n
     parked = [None] * n                       # fine mode: the DB-API call the thread is about to make
     prev_db = dict(INITIAL)
     incs = {o: 0 for o in OBJS}
 
     def commit_point(i, si, before, after):
-        """the step in which session i's COMMIT was executed"""
+        """the step in which a COMMIT of session i was executed (end of the session or commit() in its middle)"""
         th = case['threads'][i]
-        committed[i] = True
+        checks = MODES[th['mode']][1][1]
         for o, v in wrote[i].items():
             # O2: nothing this session never saw is overwritten by its commit
             if basis[i].get(o) is not None and before.get(o) != basis[i][o]:
-                problems.append(('lost-write', 'session %d committed x=%r for object %d computed from the value %r it had seen, but the committed value just '
-                                 'before its commit was %r: another session\'s committed write is lost' % (i, v, o, basis[i][o], before.get(o)),
+                kind = 'lost-write-nocheck-after-commit' if (not checks and renewed[i]) else 'lost-write'
+                problems.append((kind, 'session %d (%s) committed x=%r for object %d computed from the value %r it knew, but the committed value just '
+                                 'before its commit was %r: another session\'s committed write is lost' % (i, th['mode'], v, o, basis[i][o], before.get(o)),
                                  {'step': si, 'thread': i, 'object': o}))
             if after.get(o) != v:
                 problems.append(('commit-value', 'after the commit of session %d object %d holds %r, not what the session wrote (%r)' % (i, o, after.get(o), v),
@@ -325,38 +335,42 @@ def oracle(case, obs):
         for o, v in stable[i].items():
             if o not in wrote[i] and after.get(o) != v:
                 problems.append(('locked-row-changed', 'object %d locked/read under the lock by session %d changed at its own commit' % (o, i), {'step': si}))
-        for a in th['prog']:
-            if a[0] == 'update' and a[2] == 'inc' and a[1] in wrote[i]: incs[a[1]] += 1
-        stable[i] = {}
+        for o, k in ninc[i].items(): incs[o] += k
+        stable[i] = {}; wrote[i] = {}; basis[i] = {}; ninc[i] = {}
 
     for si, e in enumerate(obs['log']):
         i, kind, payload, db = e['t'], e['kind'], e['payload'], e['db']
         if db is None: db = prev_db                # observer locked out (reported as a divergence by evaluate)
         th = case['threads'][i]
-        immediate = MODES[th['mode']][1][0]
+        immediate = MODES[th['mode']][1][0] or renewed[i]
         performed, parked[i] = parked[i], (payload if kind == 'call' else None)
         if performed is not None:
-            if performed[0] == 'commit' and not committed[i] and all(db.get(o) == v for o, v in wrote[i].items()):
+            if performed[0] == 'commit' and all(db.get(o) == v for o, v in wrote[i].items()):
                 commit_point(i, si, prev_db, db)       # the COMMIT call went through (a refused one is seen at the session's end)
             elif performed[0] in ('rollback', 'close'): stable[i] = {}        # the transaction is over: the lock is released
         if kind == 'action':
             j, v = payload
             act = th['prog'][j]
-            o = act[1]
-            if act[0] == 'read':
-                if o not in seen[i]:
-                    seen[i][o] = v
-                    if immediate and o not in wrote[i]: stable[i][o] = v
-            elif act[0] == 'lock':
-                seen[i].setdefault(o, v)
-                if o not in wrote[i]: stable[i][o] = v
-            elif act[0] == 'update':
-                if o not in wrote[i]: basis[i][o] = seen[i].get(o)
-                wrote[i][o] = v
+            if act[0] == 'commit_mid':
+                commit_point(i, si, prev_db, db)
+                renewed[i] = True
+            else:
+                o = act[1]
+                if act[0] == 'read':
+                    if o not in seen[i]:
+                        seen[i][o] = v
+                        if immediate and o not in wrote[i]: stable[i][o] = v
+                elif act[0] == 'lock':
+                    seen[i].setdefault(o, v)
+                    if o not in wrote[i]: stable[i][o] = v
+                elif act[0] == 'update':
+                    if o not in wrote[i]: basis[i][o] = seen[i].get(o)
+                    wrote[i][o] = v; seen[i][o] = v
+                    if act[2] == 'inc': ninc[i][o] = ninc[i].get(o, 0) + 1
         elif kind == 'end':
             j, outcome = payload
             ended[i] = outcome
-            if outcome == 'ok' and not committed[i]: commit_point(i, si, prev_db, db)
+            if outcome == 'ok': commit_point(i, si, prev_db, db)
             elif outcome.startswith('other:'):
                 problems.append(('unexpected-exception', 'session %d ended with %s' % (i, outcome), {'step': si}))
             stable[i] = {}
@@ -366,7 +380,7 @@ def oracle(case, obs):
             for o, v in stable[t].items():
                 if db.get(o) != v:
                     problems.append(('locked-row-changed', 'object %d was read under the lock by session %d as %r, but at scheduler step %d (thread %d, %s) '
-                                     'its committed value became %r while that session was still running' % (o, t, v, si, i, kind, db.get(o)),
+                                     'its committed value became %r while the transaction of that session was still open' % (o, t, v, si, i, kind, db.get(o)),
                                      {'step': si, 'locker': t, 'object': o}))
                     stable[t] = {}
                     break
@@ -376,8 +390,10 @@ def oracle(case, obs):
     if all_inc:
         for o in OBJS:
             if final.get(o) != INITIAL[o] + incs[o]:
-                problems.append(('lost-increment', 'object %d: %d sessions committed an increment but the value went from %d to %r' % (o, incs[o], INITIAL[o], final.get(o)),
-                                 {'final': final}))
+                known = any(k == 'lost-write-nocheck-after-commit' and d.get('object') == o for k, _, d in problems)
+                problems.append(('lost-write-nocheck-after-commit' if known else 'lost-increment',
+                                 'object %d: %d increments were committed but the value went from %d to %r' % (o, incs[o], INITIAL[o], final.get(o)),
+                                 {'final': final, 'object': o}))
     for d, (l, p) in obs['locks'].items():
         if l or p: problems.append(('lock-left', 'provider lock of domain %s still held after all sessions ended' % d, None))
     return problems
@@ -401,7 +417,7 @@ def model_request(case, obs):
         elif kind == 'action':
             j, v = payload
             act = th['prog'][j]; pos[i] = j + 1
-            res = ['ok', None if act[0] == 'update' else v]
+            res = ['ok', None if act[0] in ('update', 'commit_mid') else v]
             val = v
         elif kind == 'end':
             j, outcome = payload
@@ -415,6 +431,7 @@ def model_request(case, obs):
         elif act[0] == 'update':
             # the value written is data of the run (obj.x + 1 of what the session holds); on a failed/blocked UPDATE use the intended one
             m = ['update', act[1], val if val is not None else 0]
+        elif act[0] == 'commit_mid': m = ['commitMid']
         else: m = [act[0]]
         sched.append([i, m]); expect.append(res)
     req = {'op': 'run', 'n': max(len(case['threads']), max(OBJS) + 1), 'objs': OBJS, 'db': [[o, INITIAL[o]] for o in OBJS],
@@ -436,9 +453,10 @@ def check_model(ctx, case, obs, req_expect, m):
             ctx.divergence('model and real database disagree on the committed rows after scheduler step %d %r' % (k, req['sched'][k]), cj,
                            model=dbm, impl=obs['log'][k]['db'])
             return
-    if m['lost'] or m['broken']:
+    if (m['lost'] and not m['unguarded']) or m['broken']:
         ctx.divergence('the model\'s monitor fired (contradicts its theorems)', cj, model={'lost': m['lost'], 'broken': m['broken']})
     for p in m['res']: ctx.count('model-res:' + p[0])
+    if m['lost']: ctx.count('model-lost-by-unguarded-session')
 
 
 def case_json(case):
@@ -459,6 +477,7 @@ def P(mode, prog, dom=0):
 C, R = ['commit'], ['rollback']
 
 def locker(variant, o=1, end=C): return P('optimistic', [['lock', o, variant], ['update', o, 'inc'], end])
+def CM(how='commit'): return ['commit_mid', how]
 def opt_writer(o=1, dom=0): return P('optimistic', [['read', o], ['update', o, 'inc'], C], dom)
 def mode_writer(mode, o=1, dom=0): return P(mode, [['read', o], ['update', o, 'inc'], C], dom)
 
@@ -478,11 +497,28 @@ PAIRS = [
     ('optimistic-vs-optimistic', [opt_writer(), opt_writer()]),
     ('reader-vs-locker', [P('optimistic', [['read', 1], ['read', 2], C]), locker('get')]),
     ('set-vs-locker', [P('optimistic', [['read', 1], ['update', 1, 77], C]), locker('query')]),
+    # several transactions in one session: commit() / db.commit() / flush()+commit() in the middle, then the same objects again
+    ('midcommit-rewrite', [P('optimistic', [['lock', 1, 'get'], ['update', 1, 'inc'], CM('commit'), ['update', 1, 'inc'], C]), opt_writer()]),
+    ('midcommit-relock', [P('optimistic', [['lock', 1, 'get'], CM('db_commit'), ['lock', 1, 'query'], ['update', 1, 'inc'], C]), opt_writer()]),
+    ('midcommit-relock-get', [P('optimistic', [['lock', 1, 'query_nowait'], ['update', 1, 'inc'], CM('flush_commit'), ['lock', 1, 'get_skip'], ['update', 1, 'inc'], C]),
+                              mode_writer('pessimistic')]),
+    ('midcommit-read-write', [P('optimistic', [['lock', 1, 'get'], CM('commit'), ['read', 1], ['update', 1, 'inc'], C]), mode_writer('pessimistic')]),
+    ('immediate-midcommit', [P('immediate', [['read', 1], ['update', 1, 'inc'], CM('db_commit'), ['update', 1, 'inc'], C]), opt_writer()]),
+    ('midcommit-two-objects', [P('optimistic', [['lock', 1, 'get'], ['lock', 2, 'query_skip'], ['update', 1, 'inc'], CM('commit'), ['update', 2, 'inc'], C]), opt_writer(2)]),
+    ('midcommit-both', [P('optimistic', [['lock', 1, 'get'], ['update', 1, 'inc'], CM('commit'), ['lock', 1, 'get'], C]),
+                        P('optimistic', [['read', 1], CM('flush_commit'), ['update', 1, 'inc'], C])]),
 ]
 TRIPLES = [
     ('locker-optimistic-pessimistic', [locker('get'), opt_writer(), mode_writer('pessimistic')]),
     ('three-lockers', [locker('get'), locker('query_nowait'), locker('get_skip')]),
     ('locker-serializable-foreign', [locker('query_skip'), mode_writer('serializable', 2), opt_writer(dom=1)]),
+    ('midcommit-locker-two-writers', [P('optimistic', [['lock', 1, 'get'], ['update', 1, 'inc'], CM('commit'), ['lock', 1, 'query'], ['update', 1, 'inc'], C]),
+                                      opt_writer(), mode_writer('pessimistic')]),
+]
+# the witness of C35_no_lost_write_full_false (known finding): a session without optimistic checks commits in its middle
+WITNESSES = [
+    ('witness-pessimistic', [P('pessimistic', [['read', 1], CM('commit'), ['update', 1, 'inc'], C]), opt_writer()], [0, 0, 1, 1, 1, 0, 0]),
+    ('witness-serializable', [P('serializable', [['read', 1], CM('db_commit'), ['update', 1, 'inc'], C]), opt_writer()], [0, 0, 1, 1, 1, 0, 0]),
 ]
 
 
@@ -523,7 +559,8 @@ def generate(ctx):
         for k in range(ctx.scale(4, 40)):
             add(name, threads, [rng.randint(0, 2) for _ in range(120)], True)
     # random programs
-    for k in range(ctx.scale(20, 300)):
+    for name, threads, schedule in WITNESSES: add(name, threads, schedule, False)
+    for k in range(ctx.scale(30, 400)):
         n = rng.choice([2, 2, 3])
         threads = []
         for i in range(n):
@@ -533,7 +570,8 @@ def generate(ctx):
             for _ in range(rng.randint(1, 4)):
                 o = rng.choice(OBJS)
                 r = rng.random()
-                if r < 0.35: prog.append(['read', o]); loaded.add(o)
+                if r < 0.12 and prog: prog.append(CM(rng.choice(COMMIT_VARIANTS)))
+                elif r < 0.35: prog.append(['read', o]); loaded.add(o)
                 elif r < 0.6: prog.append(['lock', o, rng.choice(LOCK_VARIANTS)]); loaded.add(o)
                 elif loaded:
                     o = rng.choice(sorted(loaded)); prog.append(['update', o, 'inc'])
@@ -637,7 +675,7 @@ def evaluate(ctx, cases, res):
             if kind == 'harness': raise RuntimeError('%s on %r' % (text, case_json(c)))
             ctx.count('violation:' + kind)
             ctx.violation(text, case_json(c), observed=detail, expected='the locked / serializably read row keeps its value until the locker ends; writers wait or fail; no committed write is lost',
-                          key=case_key(kind, c))
+                          key=KNOWN_KEY_NOCHECK if kind == 'lost-write-nocheck-after-commit' else case_key(kind, c))
         if obs['problem'] is None and (obs['final'] is None or any(e['db'] is None for e in obs['log'])):
             ctx.divergence('the observer connection was locked out between two DB-API calls: some connection keeps a PENDING/EXCLUSIVE file lock '
                            'while it is not executing anything, which the modelled protocol (BEGIN IMMEDIATE ... COMMIT) never does', case_json(c),
@@ -649,6 +687,7 @@ def evaluate(ctx, cases, res):
             ctx.count('mode:' + t['mode']); ctx.count('domain:%d' % t['dom'])
             for a in t['prog']:
                 if a[0] == 'lock': ctx.count('lock-variant:' + a[2])
+                if a[0] == 'commit_mid': ctx.count('mid-commit:%s:%s' % (a[1], t['mode']))
         if not c['fine'] and obs['problem'] is None and ctx.driver.ok:
             re_ = model_request(c, obs)
             if re_ is not None:
